@@ -706,7 +706,24 @@ class _HTTPConnection(httputil.HTTPMessageDelegate):
             self._release()
             assert self.client is not None
             fut = self.client.fetch(new_request, raise_error=False)
-            fut.add_done_callback(lambda f: final_callback(f.result()))
+
+            def on_redirect_done(f: Any) -> None:
+                try:
+                    response = f.result()
+                except Exception as e:
+                    # The follow-up request failed without a response
+                    # (connection refused, timeout, ...): complete the
+                    # original fetch with that error.
+                    response = HTTPResponse(
+                        original_request,
+                        599,
+                        error=e,
+                        request_time=self.io_loop.time() - self.start_time,
+                        start_time=self.start_wall_time,
+                    )
+                final_callback(response)
+
+            fut.add_done_callback(on_redirect_done)
             self._on_end_request()
             return
         if self.request.streaming_callback:
